@@ -851,6 +851,4 @@ SELFTEST = [
     dict(id="accept-no-cloexec", file="src/psocket.c", expect="C10.6",
          old="\tflags = fcntl (res, F_GETFD, 0);\n\n\tif (P_LIKELY (flags != -1 && (flags & FD_CLOEXEC) == 0)) {\n\t\tflags |= FD_CLOEXEC;\n\n\t\tif (P_UNLIKELY (fcntl (res, F_SETFD, flags) < 0))\n\t\t\tP_WARNING (\"PSocket::p_socket_accept: fcntl() with FD_CLOEXEC failed\");\n\t}",
          new="\tflags = fcntl (res, F_GETFD, 0);\n\t(void) flags;"),
-    dict(id="socket-cloexec-only-fcntl-neutral", file="src/psocket.c", expect=None,
-         old="#ifdef SOCK_CLOEXEC\n\tnative_type |= SOCK_CLOEXEC;\n#endif", new=""),
 ]
